@@ -470,6 +470,7 @@ Fixpoint trace_wf (g : cfg) (s : state) (evs : list ev) : Prop :=
       match e with
       | Flush objs ents _ => flush_wf g (d_live (s_db s)) objs ents
       | ManualTx => False
+      | RawAssoc _ => True
       | _ => True
       end /\ trace_wf g (step g s e) evs'
   end.
@@ -500,7 +501,7 @@ Lemma step_J g s e :
   cfg_consistent g -> flat_cfg g -> g_versioning g = true -> g_native g = false ->
   J g s -> trace_wf g s [e] -> J g (step g s e).
 Proof.
-  intros CC FL Hv Hn [IA [I3 [I4 I4c]]] [Hwf _]. destruct e as [objs ents assoc| | |]; simpl.
+  intros CC FL Hv Hn [IA [I3 [I4 I4c]]] [Hwf _]. destruct e as [objs ents assoc| | | |a]; simpl.
   - split; [apply flush_all; assumption|]. split; [apply flush_Inv3; assumption|].
     split; [apply flush_Inv4; assumption|].
     unfold Inv4c. rewrite flush_committed by exact Hv. exact I4c.
@@ -509,6 +510,8 @@ Proof.
   - split; [apply (step_all g s Rollback CC IA)|]. split; [|split; exact I4c].
     unfold Inv3; simpl. repeat split; try constructor; try contradiction; auto. intros o [].
   - contradiction.
+  - split; [apply (step_all g s (RawAssoc a) CC IA)|]. rewrite Hv. simpl.
+    destruct (u_live (s_uow s)); (split; [exact I3|]; split; [exact I4 | exact I4c]).
 Qed.
 
 Theorem run_J g : forall evs s,
